@@ -712,3 +712,57 @@ Qed.
 
 (* a recording in progress always has its timer: it ends after TRAILING_DELAY at the latest *)
 Definition rep_timed (i : inc_st) : Prop := match i_rep i with Some r => r_timer r = true | None => True end.
+
+Lemma timer_publishes c s r :
+  i_rep (s_inc s) = Some r -> r_timer r = true ->
+  i_files (s_inc (fst (step c s Timer))) = i_files (s_inc s) ++ [r_trigger r :: r_lines r] /\
+  i_recorded (s_inc (fst (step c s Timer))) = i_recorded (s_inc s) + 1 /\ i_rep (s_inc (fst (step c s Timer))) = None.
+Proof. intros Hr Ht. cbn [step]. rewrite Hr, Ht. cbn. repeat split; reflexivity. Qed.
+
+(* ================================================================== non-vacuity *)
+Definition ev_ids (l : list event) : list Z := map e_id l.
+
+(* numbers: three logger-numbered calls (one of them failing inside _msg) interleaved with a caller-numbered one *)
+Example ex_numbers :
+  snd (run (mkCfg true true) init [Msg None 0 20 true true 0; Msg (Some 7) 0 20 true true 1; MsgBad false 2; Msg None 2 30 false true 3])
+  = [Some 0; Some 7; Some 1; Some 2].
+Proof. vm_compute. reflexivity. Qed.
+
+(* bounds: limit 2 on (None, 20): the two most recent events stay; lowering a limit does not trim by itself *)
+Example ex_bounded :
+  let s := fst (run (mkCfg false false) init [SetSize 0 20 2; Msg None 0 20 true true 0; Msg None 0 20 true true 1; Msg None 0 20 true true 2;
+                                              SetSize 0 20 1]) in
+  ev_ids (buf_get (s_bufs s) 0 20) = [1; 2] /\ limit_of (s_sizes s) 0 20 = 1.
+Proof. vm_compute. split; reflexivity. Qed.
+
+(* a negative limit: popleft on the empty deque raises inside _msg, the caller still gets its number, and the
+   internal-error event is logged instead *)
+Example ex_negative_limit :
+  let '(s, r) := run (mkCfg false false) init [SetSize 0 20 (-1); Msg None 0 20 true true 0] in
+  r = [None; Some 0] /\ ev_ids (all_buffered (s_bufs s)) = [-1].
+Proof. vm_compute. split; reflexivity. Qed.
+
+(* subscriber: queue limit 2, one in flight: 5 sends, the queue overflows and events 3, 4 are dropped; order kept *)
+Example ex_subscriber :
+  let s := sub_run 2 1 [Send 0; Send 1; Turn; Send 2; Send 3; Send 4; Ack; Turn; Ack; Turn] in
+  q_delivered s = [0; 1; 2] /\ q_queue s = [] /\ q_emitted s = [0; 1; 2; 3; 4] /\ q_inflight s = 1.
+Proof. vm_compute. repeat split; reflexivity. Qed.
+
+(* incident with an event the plain encoder rejects (e_ok = false) in the history AND as trailing event: recorded *)
+Example ex_incident_trailing :
+  let s := fst (run (mkCfg true true) init [Msg None 0 20 false true 0; Msg None 2 20 true true 1; Msg None 0 30 true true 2;
+                                            Msg None 0 20 false false 3; Msg None 0 20 true true 4; Timer]) in
+  map ev_ids (i_files (s_inc s)) = [[2; 0; 1; 2; 3; 4]] /\ i_recorded (s_inc s) = 1 /\ i_declared (s_inc s) = 1 /\
+  i_junk (s_inc s) = 0 /\ i_rep (s_inc s) = None.
+Proof. vm_compute. repeat split; reflexivity. Qed.
+
+Example ex_incident_nontrailing_then_later :
+  let s := fst (run (mkCfg true false) init [Msg None 0 20 false true 0; Msg None 0 30 false true 1; Msg None 2 40 true true 2]) in
+  map ev_ids (i_files (s_inc s)) = [[1; 0; 1]; [2; 0; 1; 2]] /\ i_recorded (s_inc s) = 2.
+Proof. vm_compute. split; reflexivity. Qed.
+
+(* the hypotheses of incident_recorded are met by a non-trivial state *)
+Example ex_incident_recorded_hyps :
+  let s := fst (run (mkCfg true true) init [Msg None 0 20 false true 0; Msg None 2 20 true true 1]) in
+  i_rep (s_inc s) = None /\ i_zombie (s_inc s) = false /\ 0 <= limit_of (s_sizes s) 0 30 /\ incident_level <= 35.
+Proof. vm_compute. repeat split; try reflexivity; discriminate. Qed.
